@@ -24,6 +24,7 @@ chunk index (unit)
 ranged pipeline (system)
 * `rw.reset maxChunkSize` · `rw.write ts:msgLen:fldLen[*N],…` → OnWrite calls, start/end, `CORRUPTED c,…`
 * `rw.writenoindex …` (journal only: the writer is parked before `onWriteCIndex`) · `rw.notify` (the parked notifications are delivered) · `rw.forgetchunk c` (a reader's `syncChunks` with an older chunk list forgot chunk `c`) · `rw.dropstale` (a reader's `dropStale` has removed the entries older than their chunk, its `lightFill` has not finished)
+* `rw.restart clean|crash` · `rw.sync` · `rw.heal` (restart on the same directory / on a crash image; one SyncChunks; non-forced rebuild of every chunk)
 * `rw.rebuild <dense chunk id|all>` · `rw.autorebuild` (rebuild the chunks the last write reported corrupted) · `rw.hull` → `cid:cnt:min:max …` · `rw.points cid`
 * `r.windows lo hi` → `cid:minPos:maxPos:count …` of a fresh selector (bounds `none` = absent)
 * `r.scan lo hi page` → `got=<runs> spec=<runs> cls=<2,3,41,4,24> fix2=<0|1|-> fix3=<0|1|-> fix23=<0|1|-> fix41=<0|1|-> fixset=<smallest set of repairs {3,2,41} that restores the specification answer|->`
@@ -50,6 +51,7 @@ structure DS where
   layout : Option (Selector.Journal × Array (Array Int) × Array Nat) := none
   rg : Option RangedIter.St := none
   pendingReb : List Nat := []
+  snap : Option (CIndex.St × CIndex.St × CIndex.St × CIndex.St) := none   -- cindex.dat: the chunk index as of the last clean stop
   pendingCalls : List (Nat × Nat × Nat × Int × Int) := []   -- OnWrite calls of a `rw.writenoindex` batch not yet delivered
   ph : List PartHist.PChunk := []     -- the Points-level partition model of the history theorem (`PartHist`)
   phLive : Bool := true              -- no rebuild has happened yet (PartHist has no rebuild step)
@@ -189,7 +191,7 @@ def step (d : DS) (toks : List String) : DS × String :=
           let (st, k) := Selector.updatePossWith rmin rmax ch.minTs ch.maxTs (CIndex.grEqAns d.cidx cid) (CIndex.lessAns d.cidx cid) {}
           (d, s!"{st.minPos} {st.maxPos} {k}"))
      | _, _, _ => (d, "bad-op"))
-  | ["rw.reset", m] => ({ d with wj := { maxSize := m.toNat?.getD 100 }, rcidx := {}, rcidx2 := {}, rcidx3 := {}, rcidx4 := {}, rebuiltNeg := false, ph := [], phLive := true, rg := none, allTs := #[], batches := [], layout := none }, "ok")
+  | ["rw.reset", m] => ({ d with wj := { maxSize := m.toNat?.getD 100 }, rcidx := {}, rcidx2 := {}, rcidx3 := {}, rcidx4 := {}, rebuiltNeg := false, ph := [], phLive := true, snap := none, rg := none, allTs := #[], batches := [], layout := none }, "ok")
   | ["rw.writenoindex", spec] =>
     -- the records are in the journal (readable) but `onWriteCIndex` has not run yet (writer parked before it)
     let recs := parseRecs spec
@@ -213,6 +215,31 @@ def step (d : DS) (toks : List String) : DS × String :=
          if Generated.C02.syncChunksKeepsNewerChunks then ci else { ci with chunks := ci.chunks.filter (fun ch => ch.id != cid) }
        ({ d with rcidx := drop d.rcidx, rcidx2 := drop d.rcidx2, rcidx3 := drop d.rcidx3, rcidx4 := drop d.rcidx4, phLive := false }, "ok")
      | none => (d, "bad-op"))
+  | ["rw.restart", how] =>
+    -- clean: the server stops (cindex.dat written) and starts on the same directory; crash: it starts on an image of the
+    -- directory taken while it was running — the journal is current, cindex.dat is the one of the last clean stop (or absent).
+    -- What is loaded: Id, MinTs, MaxTs, Recs, IdxRoot; lastRec and the corrupted flag are not persisted; `loaded` is set
+    let load (ci : CIndex.St) : CIndex.St := { ci with chunks := ci.chunks.map (fun c => { c with lastRec := 0, corrupted := false, loaded := true }) }
+    if how == "clean" then
+      ({ d with snap := some (d.rcidx, d.rcidx2, d.rcidx3, d.rcidx4), rcidx := load d.rcidx, rcidx2 := load d.rcidx2, rcidx3 := load d.rcidx3, rcidx4 := load d.rcidx4, phLive := false, rg := none }, "ok")
+    else
+      let (a, b, c, e) := d.snap.getD ({}, {}, {}, {})
+      ({ d with rcidx := load a, rcidx2 := load b, rcidx3 := load c, rcidx4 := load e, phLive := false, rg := none }, "ok")
+  | ["rw.sync"] =>
+    -- one `SyncChunks` over the journal's current chunk list (stale snapshot entries dropped, unknown chunks light-filled)
+    let (d, lay) := withLayout d
+    let sy (ci : CIndex.St) : CIndex.St := (RangedIter.syncChunks { cks := lay.1, cidx := ci, tss := lay.2.1 }).cidx
+    ({ d with rcidx := sy d.rcidx, rcidx2 := sy d.rcidx2, rcidx3 := sy d.rcidx3, rcidx4 := sy d.rcidx4 }, "ok")
+  | ["rw.heal"] =>
+    -- `RebuildIndex(force = false)` for every chunk: those without a usable tree are rebuilt
+    let (d, lay) := withLayout d
+    let heal (rebuildF : CIndex.St → Nat → List Int → CIndex.St) (ci : CIndex.St) : CIndex.St :=
+      (List.range lay.1.size).foldl (fun ci i =>
+        let id := (lay.1[i]!).id / 10
+        match CIndex.findChk ci id with
+        | some ch => if ch.corrupted || ch.root.isNone then rebuildF ci id ((lay.2.1[i]?).getD #[]).toList else ci
+        | none => ci) ci
+    ({ d with rcidx := heal CIndex.rebuild d.rcidx, rcidx2 := heal CIndex.rebuild d.rcidx2, rcidx3 := heal CIndex.rebuildRepaired d.rcidx3, rcidx4 := heal CIndex.rebuildRepaired d.rcidx4 }, "ok")
   | ["rw.notify"] =>
     -- the parked writer continues: its OnWrite notifications reach the chunk index now
     let app (ci : CIndex.St) : CIndex.St := d.pendingCalls.foldl (fun ci (call : Nat × Nat × Nat × Int × Int) =>
